@@ -354,7 +354,8 @@ def _plot_shape(h):
         p, ax = ploter()
         with h.stubs({**_plot_patches(h), (DefinedShape, "__float__"): fl, (ConnectedShape, "__float__"): fl, (DisjointShape, "__float__"): fl, (JordanCurve, "__float__"): fl}):
             p.plot(shape)
-        calls = list(ax.calls)
+        calls = list(ax.calls) + [("end",)] * 4  # (padding: a wrong call sequence must fail the clause, not the checker)
+        ncalls = len(ax.calls)
         pos = 0
         ok = True
         details = []
@@ -365,17 +366,17 @@ def _plot_shape(h):
             else:
                 ok = ok and calls[pos][0] == "facecolor" and calls[pos + 1][0] == "patch" and calls[pos + 1][1].kw.get("color") == "white"
                 pos += 1
-            fill = calls[pos][1]
-            ok = ok and sum(1 for c in fill.path.codes if c == RecPath.MOVETO) == len(comp.jordans) and sum(1 for c in fill.path.codes if c == RecPath.CLOSEPOLY) == len(comp.jordans)
+            fill = calls[pos][1] if calls[pos][0] == "patch" else None
+            ok = ok and fill is not None and sum(1 for c in fill.path.codes if c == RecPath.MOVETO) == len(comp.jordans) and sum(1 for c in fill.path.codes if c == RecPath.CLOSEPOLY) == len(comp.jordans)
             pos += 1
             for jd in comp.jordans:
                 out = calls[pos]
                 col = "red" if bool(fl(jd) > 0) else "blue"
                 ok = ok and out[0] == "patch" and out[1].kw.get("edgecolor") == col and out[1].kw.get("facecolor") == "none"
-                ok = ok and list(out[1].path.codes).count(RecPath.MOVETO) == 1 and out[1].path.codes[-1] == RecPath.CLOSEPOLY
+                ok = ok and out[0] == "patch" and list(out[1].path.codes).count(RecPath.MOVETO) == 1 and out[1].path.codes[-1] == RecPath.CLOSEPOLY
                 ok = ok and calls[pos + 1][0] == "scatter" and calls[pos + 1][3].get("color") == col
                 pos += 2
-        h.ensure(f"components-and-outlines[{type(shape).__name__}]", ok and pos == len(calls))
+        h.ensure(f"components-and-outlines[{type(shape).__name__}]", ok and pos == ncalls)
         h.ensure("plot-leaves-shape-unchanged", all(view_eq(view(jd), b) is True or view_eq(view(jd), b) for jd, b in zip(shape.jordans, before)))
 
 
